@@ -33,3 +33,18 @@ Definition spec_trace (c : rcase) : list N :=
 Definition check (c : rcase) : N :=
   ((if nn_eqb (model_trace c) (rc_expect c) then 0 else 1) +
    (if rc_inhyp c && negb (list_eqb N.eqb (spec_trace c) (map (hd 0) (rc_expect c))) then 2 else 0))%N.
+
+(* ---- C07: the same with a cancellation schedule (one boolean per pending poll) ---- *)
+Record ccase := { cc_base : rcase; cc_sched : list bool }.
+
+Definition cmodel_trace (c : ccase) : list (list N) :=
+  let b := cc_base c in
+  map enc_op (firstn (rc_n b)
+    (drive_c (rc_step b) (rc_limit b) N (lookup (rc_tab b))
+             (rc_n b * (length (rc_events b) + 2)) (rc_fuel b) (cc_sched c) Fresh
+             (init (rc_step b)) (rc_events b))).
+
+Definition check_c (c : ccase) : N :=
+  let b := cc_base c in
+  ((if nn_eqb (cmodel_trace c) (rc_expect b) then 0 else 1) +
+   (if rc_inhyp b && negb (list_eqb N.eqb (spec_trace b) (map (hd 0) (rc_expect b))) then 2 else 0))%N.
